@@ -100,6 +100,13 @@ func LongInputs(variants []string) []*Case {
 		menu := []string{"", "ab", strings.Repeat("a", 65534), strings.Repeat("a", 65535), strings.Repeat("a", 65533) + "b", strings.Repeat("a", 70) + "c"}
 		out = append(out, &Case{Family: "LONG", G: g, Extra: menu, Depth: 2, Sizes: []int{-1, 1}, Us: []string{"uint16", "uint32", "uint"}, Variants: variants, Mode: spec.ModeHistory})
 	}
+	// more tokens than the position type can count although the input fits it: two tokens per rune
+	tok2 := ag.G("LONG/tokens",
+		ag.Rule{Name: "S", Body: ag.S(ag.U(ag.Star, ag.N("I")), ag.U(ag.Not, ag.D()))},
+		ag.Rule{Name: "I", Body: ag.N("L")},
+		ag.Rule{Name: "L", Body: lit("a")})
+	tok2.Number()
+	out = append(out, &Case{Family: "LONG", G: tok2, Extra: []string{"", "aa", strings.Repeat("a", 32767), strings.Repeat("a", 32768), "ab"}, Depth: 2, Sizes: []int{-1}, Us: []string{"uint16", "uint32"}, Variants: variants, Mode: spec.ModeHistory, NoTree: true})
 	// lengths around 65536 and beyond need a 32-bit index
 	for _, g := range gs[:2] {
 		g2 := g.Clone()
